@@ -134,6 +134,7 @@ Fixpoint obs_meas (p : pt) (rho : env) {struct p} : list ob :=
   match p with
   | Atom _ _ _ _ _ ms => obs_m rho ms
   | AMC subs _ ms => obs_m rho ms ++ flat_map (fun q => obs_meas q rho) subs
+  | Par inner _ => obs_meas inner rho
   | Ari inner _ _ => obs_meas inner rho
   | Map inner m _ => obs_meas inner (map_env rho m)
   | Ren inner _ => obs_meas inner rho
@@ -237,14 +238,18 @@ Fixpoint atomic (p : pt) : bool :=
   match p with
   | Atom _ _ _ _ _ _ => true
   | AMC subs _ _ => forallb atomic subs
+  | Par inner _ => atomic inner
   | Ari inner _ _ => atomic inner
   | Map inner _ _ => atomic inner
   | Ren inner _ => atomic inner
   | _ => false
   end.
 
-(* ... and the parts of an AtomicMultiChannelPT are atomic (its constructor raises TypeError otherwise; a
-   ParallelChannelPT part is excluded: the real class has no get_measurement_windows) *)
+(* ... and the parts of an AtomicMultiChannelPT are atomic (its constructor raises TypeError otherwise).  Round 4: a
+   ParallelChannelPT around an atomic template is atomic as well (since /repo bae1029 the class has
+   get_measurement_windows = the windows of the inner template).  `Par inner []` below an atomic composite is a
+   ParallelChannelPT without overwritten channels, NOT a TimeReversalPT: the mirrored windows of a time reversed
+   part evaluate the inner duration once more, which is not modelled (the harness never generates it). *)
 Fixpoint wf (p : pt) : Prop :=
   match p with
   | Atom _ _ _ _ _ _ => True
